@@ -29,6 +29,9 @@ CHECKS = {
     "C14": dict(cat="other", tech="symbolic execution of the operator-algebra classes on symbolic matrices / scalars / vectors for enumerated expression trees (programs); polynomial identities decided by z3/cvc5; exact-rational LAPACK contract stub for the mass solve",
                 text="Bounded symbolic verification over programs: every well-typed expression tree of depth 1 over 4 leaf operators (dense, sparse, generic; real and complex) and 8 operations, and a seeded sample of depth-2 trees (all of them in the thorough tier), evaluates - via to_dense, matvec, matmat, application to grid functions and strong_form - to the matrix expression for ALL matrix entries, scalars and vectors; ill-typed trees must raise; likewise potential-operator sums/scalings, 2x2 blocked operators and grid-function arithmetic. Two genuine defects were repaired.",
                 ref="3/C14"),
+    "C15": dict(cat="other", tech="symbolic execution of the solver wrappers against contract stubs of scipy.linalg.solve/lu_factor/lu_solve and scipy.sparse.linalg.gmres/cg; wiring claims as polynomial identities, lu(A,A*f)=f in LRA after monomial abstraction (z3/cvc5)",
+                text="Bounded symbolic verification of the solver wrappers: for symbolic 2x2/4x4 (blocked: 6x6) real and complex operators the system handed to SciPy is exactly (weak form, projections) or (strong form, coefficients), the solution is unpacked over the domain spaces in order with the right lengths, lu(A, A*f) = f for every invertible matrix (also with precomputed factors), and iteration counts / residual lists are those of the callback calls. Convergence and info==0 are SciPy's and are outside the claim. One genuine defect was repaired.",
+                ref="3/C15"),
     "C16": dict(cat="other", tech="two-symbolic-iteration execution of every prange loop (index inputs as uninterpreted functions, shared arrays recording accesses) with LIA+UF conflict queries; path exploration of the colouring code over a symbolic local2global table (z3/cvc5)",
                 text="Bounded symbolic verification of race freedom: for all 21 parallel functions found by AST scan, no two iterations (unbounded iteration numbers / element indices) access the same cell with a write - for the regular assemblers under the colouring invariant, which is itself decided for every local2global table of 3 elements x 2 (3) local dofs; constructors are swept concretely (auxiliary). Bitwise thread-count independence then follows because each iteration is sequential and deterministic.",
                 ref="3/C16"),
